@@ -88,9 +88,10 @@ def cases(tier, seed):
             ins = [f"i{k}" for k in range(ar)]
             for k2 in (kw, kw.lower()):
                 yield {"k": "read", "b": {"inputs": ins, "outputs": ["y"], "gates": [["y", k2, ins]], "dffs": []}, "style": "plain", "salt": 0}
-    for kw in ("XOR", "XNOR", "AND", "NOR"):
-        yield {"k": "read", "b": {"inputs": ["a", "b"], "outputs": ["y"], "gates": [["y", kw, ["a", "a"]]], "dffs": []}, "style": "plain", "salt": 0, "tag": "rep"}
-        yield {"k": "read", "b": {"inputs": ["a", "b"], "outputs": ["y"], "gates": [["y", kw, ["a", "b", "a"]]], "dffs": []}, "style": "plain", "salt": 0, "tag": "rep"}
+    for kw0 in ("XOR", "XNOR", "AND", "NOR"):
+        for kw in (kw0, kw0.lower()):   # repeated operands in both spellings of the keyword (mixed case is not in the dialect)
+            for ops in (["a", "a"], ["a", "b", "a"], ["a", "a", "a"], ["a", "a", "b", "b"], ["b", "a", "b", "a", "b"]):
+                yield {"k": "read", "b": {"inputs": ["a", "b"], "outputs": ["y"], "gates": [["y", kw, ops]], "dffs": []}, "style": "plain", "salt": 0, "tag": "rep"}
     # DFF chains in both textual orders
     for order in ([["q1", "i0"], ["q2", "q1"]], [["q2", "q1"], ["q1", "i0"]]):
         yield {"k": "read", "b": {"inputs": ["i0"], "outputs": ["y"], "gates": [["y", "AND", ["q2", "i0"]]], "dffs": order}, "style": "plain", "salt": 0,
